@@ -191,6 +191,37 @@ Theorem C12_restart_is_fresh : forall c s e v,
 Proof. intros c s e v. split; [exact (restart_reset_fresh v)|exact (view_after_cases c s e)]. Qed.
 Print Assumptions C12_restart_is_fresh.
 
+(* ---- where an exit comes from (Engine.run: LaunchTask / Wait / HandleTaskExit / _setExitReason).  An exit is
+   either reported by a launched task or produced by the launch itself failing (the back-end's task
+   generator raises): the latter is a SubmissionFailed (OSError, JobLaunchError) or an UnknownIssue,
+   never resets the re-submission counter, leaves no process / launch date / finish date on the
+   engine, and is handled by the same policy: after an initiated restart the engine is fresh again,
+   after a refusal the failed launch is still visible.  On histories of launched tasks the refined
+   engine views are those of C12_restart_is_fresh. *)
+Theorem C12_failed_launch : forall c s e,
+  (launched (lv_launch e) = false ->
+     (launch_reason (lv_launch e) = SubmissionFailed \/ launch_reason (lv_launch e) = UnknownIssue) /\
+     (forall s0, on_exit s0 (launch_reason (lv_launch e)) = s0) /\
+     exited_view_l (lv_launch e) = failed_launch_view (launch_reason (lv_launch e))) /\
+  (snd (pm_step c s (to_exit_ev e)) = Initiated -> view_after_l c s e = fresh_view) /\
+  (reaches_run c (on_exit s (launch_reason (lv_launch e))) (launch_reason (lv_launch e)) (lv_hook e) (lv_stable e) = false ->
+     view_after_l c s e = exited_view_l (lv_launch e) /\ snd (pm_step c s (to_exit_ev e)) <> Initiated) /\
+  (forall h s0, views_l c s0 (map task_ev h) = views c s0 h).
+Proof.
+  intros c s e. split; [|split; [exact (proj1 (view_after_l_cases c s e))|split; [exact (proj2 (view_after_l_cases c s e))|exact (views_l_task c)]]].
+  intros Hl. destruct (failed_launch_reason _ Hl) as [A B]. split; [exact A|split; [exact B|]].
+  unfold exited_view_l. rewrite Hl. reflexivity.
+Qed.
+Print Assumptions C12_failed_launch.
+
+(* The cap of five consecutive re-submissions, over launch histories: it does not matter whether a
+   failed submission is reported by the launched task (LSF, Kubernetes) or by the launch raising, and
+   failed launches of any kind do not start a new stretch - only a task exiting with Success does. *)
+Theorem C12_resub_cap_launches : forall c h,
+  Forall (fun e => lv_launch e <> TaskExits Success) h -> count_resub c init_st (map to_exit_ev h) <= 5.
+Proof. exact resub_cap_launches. Qed.
+Print Assumptions C12_resub_cap_launches.
+
 (* non-vacuity: default policy (max 3, default hook), exits RE, RE, SubmissionFailed, RE, RE:
    three continuation restarts and one re-submission are initiated, the fourth RE is refused and
    the component fails *)
@@ -218,5 +249,19 @@ Example C12_nonvacuous_more :
     = ([Initiated; Initiated; Initiated; MaxAttemptsExceeded], Some Shutdown, {| restarts := 2; resub := 1; shut := true |}) /\
   dlmeso_hook ResourceExhausted (Some {| cf_lines := ["steps 100"%string; "finish"%string]; cf_last_nl := true |})
     = (HTrue, Some {| cf_lines := ["steps 100"%string; "restart"%string; "finish"%string]; cf_last_nl := true |}) /\
-  view_after ex_custom init_st (ex_ev KnownIssue) = fresh_view.
-Proof. repeat split; try reflexivity. cbn. intros [H|[H|[]]]; discriminate. Qed.
+  view_after ex_custom init_st (ex_ev KnownIssue) = fresh_view /\
+  (* seven failed submissions, shown in three different ways: five re-submissions, then refused; the last
+     exit was a failed launch, which stays visible on the engine *)
+  (let lv l := {| lv_launch := l; lv_hook := HJunk; lv_stable := true; lv_run_ok := true |} in
+   let h := map lv [TaskExits SubmissionFailed; GenOSError; TaskExits SubmissionFailed; GenLaunchError;
+                    TaskExits SubmissionFailed; GenOSError; TaskExits SubmissionFailed] in
+   Forall (fun e => lv_launch e <> TaskExits Success) h /\
+   count_resub ex_custom init_st (map to_exit_ev h) = 5 /\
+   fst (trace ex_custom init_st (map to_exit_ev h)) =
+     [(Initiated, 0, 1); (Initiated, 0, 2); (Initiated, 0, 3); (Initiated, 0, 4); (Initiated, 0, 5); (MaxAttemptsExceeded, 0, 5)] /\
+   nth 5 (views_l ex_custom init_st h) (observe fresh_view) = observe (failed_launch_view SubmissionFailed)).
+Proof.
+  repeat split; try reflexivity.
+  - cbn. intros [H|[H|[]]]; discriminate.
+  - repeat constructor; discriminate.
+Qed.
